@@ -110,7 +110,12 @@ def run_case(case, work, rec):
                 (f"list:{fl}", fl, fl, False), (f"names:{[keys[i] for i in fl]}", [keys[i] for i in fl], fl, False),
                 # the same multiple selections as numpy arrays (what np.flatnonzero / name arrays give)
                 (f"nparr:{fl}", np.array(fl), fl, False), (f"npnames:{[keys[i] for i in fl]}", np.array([keys[i] for i in fl]), fl, False)]
-        for fd, fsel, comps, single in rng.sample(sels, 3):
+        picks = rng.sample(sels, 3)
+        if nf >= 3:      # a non-decreasing list that repeats a field and skips one: as long as the span it covers
+            a = rng.randrange(nf - 2)
+            rg = [[a, a, a + 2], [a, a + 2, a + 2]][rng.randrange(2)]
+            picks.append([(f"repgap:{rg}", rg, rg, False), (f"repgapnames:{rg}", [keys[i] for i in rg], rg, False)][rng.randrange(2)])
+        for fd, fsel, comps, single in picks:
             key = (digest, fd, lv, bi, ijk)
             descr = f"[{fd}] at point {pt} (centre of cell {ijk} of box {bi}, level {lv})"
             if rng.random() < 0.3:
@@ -127,10 +132,15 @@ def run_case(case, work, rec):
                 got = pck[fsel](*pt)
                 vals = np.atleast_1d(np.asarray(got, dtype=float)).reshape(-1)
             except Exception as e:
+                if fd.startswith("repgap"):
+                    rec.skip("a selection that names a field twice was refused")
+                    continue
                 rec.violation(f"interior cell-centre query raised {type(e).__name__}: {descr}", key=key,
                               witness={"query": descr, "exc": repr(e)[:300], "geo_low": m.geo_low, "dx": m.dx[lv]})
                 continue
             rec.count("queries")
+            if fd.startswith("repgap"):
+                rec.count("queries_with_a_repeated_field")
             if lv > 0:
                 rec.count("level_gt0")
             if origin_nz:
